@@ -3,7 +3,9 @@ reference-free structs and one-dimensional arrays (`_to_json` + constructor disp
 numbers, nested objects (inline or referenced - the dictionary form does not distinguish them), null references. -/
 namespace DictF
 
-inductive FK | num (default : Int) | obj (cls : Nat) | optobj (cls : Nat)     -- numeric field with its default; nested hybrid; Ref (may be None)
+/-- a numeric field: a scalar (one number) or an array of numbers (static shape: the default is all zeros; dynamic shape: there is
+NO default - `none` - and the field is always stored); nested hybrid; Ref (may be None) -/
+inductive FK | num (default : Option (List Int)) | obj (cls : Nat) | optobj (cls : Nat)
 deriving Repr, Inhabited
 
 structure Cls where
@@ -15,14 +17,14 @@ def clsOf (u : Universe) (c : Nat) : Cls := u.getD c default
 
 /-- value of a hybrid object: one entry per declared field, in declaration order -/
 inductive V where
- | num (v : Int)
+ | num (v : List Int)            -- a scalar is a list of one number
  | obj (fs : List V)
  | null
 deriving Repr, Inhabited
 
 /-- dictionary form: python-name keyed; absent keys are simply not in the list -/
 inductive D where
- | num (v : Int)
+ | num (v : List Int)
  | dict (fs : List (String × D))
  | none_
 deriving Repr, Inhabited
@@ -55,7 +57,7 @@ def fromFullF (u : Universe) : Nat → List (String × String × FK) → List (S
  | fuel, (xo, _, .num dflt) :: fs, kv =>
     (match kv.lookup xo with
      | some (.num v) => V.num v
-     | _ => V.num dflt) :: fromFullF u fuel fs kv
+     | _ => V.num (dflt.getD [])) :: fromFullF u fuel fs kv
  | fuel, (xo, _, .obj c') :: fs, kv =>
     (match kv.lookup xo with
      | some d => fromFull u fuel c' d
@@ -68,7 +70,8 @@ def fromFullF (u : Universe) : Nat → List (String × String × FK) → List (S
 end
 
 mutual
-/-- `to_dict`: a numeric field equal to its declared default is omitted, a null reference is omitted, nested objects recurse -/
+/-- `to_dict`: a numeric field equal to its default is omitted (a field without default - an array of dynamic shape - never is), a
+null reference is omitted, nested objects recurse -/
 def toDict (u : Universe) : Nat → Nat → V → D
  | 0, _, _ => .dict []
  | fuel + 1, c, .obj vs => .dict (toFields u fuel (clsOf u c).fields vs)
@@ -76,7 +79,7 @@ def toDict (u : Universe) : Nat → Nat → V → D
  | _, _, .null => .none_
 def toFields (u : Universe) : Nat → List (String × String × FK) → List V → List (String × D)
  | fuel, (_, py, .num dflt) :: fs, .num v :: vs =>
-    if v = dflt then toFields u fuel fs vs else (py, .num v) :: toFields u fuel fs vs
+    if some v = dflt then toFields u fuel fs vs else (py, .num v) :: toFields u fuel fs vs
  | fuel, (_, py, .obj c') :: fs, v :: vs => (py, toDict u fuel c' v) :: toFields u fuel fs vs
  | fuel, (_, _, .optobj _) :: fs, .null :: vs => toFields u fuel fs vs
  | fuel, (_, py, .optobj c') :: fs, v :: vs => (py, toFull u fuel c' v) :: toFields u fuel fs vs
@@ -95,7 +98,7 @@ def fromFields (u : Universe) : Nat → List (String × String × FK) → List (
  | fuel, (_, py, .num dflt) :: fs, kv =>
     (match kv.lookup py with
      | some (.num v) => V.num v
-     | _ => V.num dflt) :: fromFields u fuel fs kv
+     | _ => V.num (dflt.getD [])) :: fromFields u fuel fs kv
  | fuel, (_, py, .obj c') :: fs, kv =>
     (match kv.lookup py with
      | some d => fromDict u fuel c' d
